@@ -87,9 +87,13 @@ pub fn run(ctx: &Ctx) -> Report {
     let max_len = 7usize;
     let syms = 8u64;
     let mut global = 0u64;
-    for n in 0..=max_len {
+    'outer: for n in 0..=max_len {
         let total = syms.pow(n as u32);
         for code in 0..total {
+            if rep.violations.len() >= 3 {
+                rep.exhaustive = false;
+                break 'outer;
+            }
             global += 1;
             if !ctx.mine(global) {
                 continue;
